@@ -170,8 +170,11 @@ def run_check(mod, tier, seed):
 
     wall = time.time() - t0
     ev = build_evidence(mod, agg, tier, seed, wall, len(new), sorted(knownhits))
-    os.makedirs(os.path.join(env.VERIF, "evidence"), exist_ok=True)
-    with open(os.path.join(env.VERIF, "evidence", prop + ".json"), "w") as f:
+    evdir = os.path.join(env.VERIF, "evidence")
+    if os.environ.get("VERIF_ONLY") or os.environ.get("VERIF_REPO"):
+        evdir = "/tmp/scverif-debug-evidence"  # debugging / seeded-change runs never touch the real evidence
+    os.makedirs(evdir, exist_ok=True)
+    with open(os.path.join(evdir, prop + ".json"), "w") as f:
         json.dump(ev, f, indent=1, default=repr)
 
     for l in lines:
